@@ -472,7 +472,8 @@ class Ctx:
             # keep away from the documented oddity (spin / asyncio.wait([]))
             met = True
             self.exhausted_stop = True
-        limit = 20 + 2 * (self.spec["retries"] + 1) * (self.spec["goal"] + max_tasks_of(self.spec) + 8)
+        nfp = len({k.split(":")[0] for k in (self.spec.get("faults") or {})})
+        limit = 30 + (self.spec["retries"] + 2) * (self.spec["goal"] + max_tasks_of(self.spec) + nfp)
         if not met and self.goal_calls > limit:
             met = True
             self.machinery.append(f"run did not reach its goal within {limit} iterations")
